@@ -274,14 +274,14 @@ def plan(tier, seed):
     q = tier == "quick"
     specs = []
     for i in range(5 if q else 10):
-        specs.append({"kind": "optv", "sub": i, "cases": 260 if q else 3000, "budget_s": 110 if q else 1500})
+        specs.append({"kind": "optv", "sub": i, "cases": 260 if q else 10000, "budget_s": 110 if q else 600})
     for i in range(5 if q else 10):
-        specs.append({"kind": "optvp", "sub": i, "cases": 130 if q else 1500, "budget_s": 110 if q else 1500})
+        specs.append({"kind": "optvp", "sub": i, "cases": 130 if q else 5000, "budget_s": 110 if q else 600})
     for i in range(3 if q else 6):
-        specs.append({"kind": "lc", "sub": i, "cases": 120 if q else 1500, "budget_s": 110 if q else 1500})
-    specs.append({"kind": "tyx", "sub": 0, "cases": 14 if q else 120, "budget_s": 100 if q else 1500})
-    for i in range(2 if q else 4):
-        specs.append({"kind": "accessor", "sub": i, "cases": 24 if q else 150, "budget_s": 110 if q else 1500})
+        specs.append({"kind": "lc", "sub": i, "cases": 120 if q else 5000, "budget_s": 110 if q else 600})
+    specs.append({"kind": "tyx", "sub": 0, "cases": 14 if q else 400, "budget_s": 100 if q else 600})
+    for i in range(2 if q else 8):
+        specs.append({"kind": "accessor", "sub": i, "cases": 24 if q else 400, "budget_s": 110 if q else 600})
     return specs
 
 
